@@ -5,8 +5,16 @@ from . import oracles as O
 def engine(name):
     import pyrepseq
     import pyrepseq.nn as nn
-    return {"symdel": nn.symdel, "nearest_neighbor": nn.nearest_neighbor,
-            "hash_based": nn.hash_based, "kdtree": nn.kdtree}[name]
+
+    def symdeldb_lookup(seqs, max_edits=1, custom_distance=None, max_custom_distance=float("inf"), output_type="triplets", seqs2=None):
+        return nn.SymdelDB(seqs, max_edits).lookup(seqs2, custom_distance=custom_distance, max_custom_distance=max_custom_distance,
+                                                   output_type=output_type)
+
+    def lookupdb_lookup(seqs, max_edits=1, custom_distance=None, max_custom_distance=float("inf"), output_type="triplets", seqs2=None):
+        return nn.LookupDB(seqs).lookup(seqs2, max_edits=max_edits, custom_distance=custom_distance,
+                                        max_custom_distance=max_custom_distance, output_type=output_type)
+    return {"symdel": nn.symdel, "nearest_neighbor": nn.nearest_neighbor, "hash_based": nn.hash_based, "kdtree": nn.kdtree,
+            "SymdelDB.lookup": symdeldb_lookup, "LookupDB.lookup": lookupdb_lookup}[name]
 
 
 def seq_classes(seqs, k=None):
